@@ -84,6 +84,10 @@ CLAIMS = {
   text="TLC-generated formulas (incl. variants with symbol names that need quoting) are printed as SMT-LIB scripts (tree and DAG) and parsed back in the same environment; TLC-generated scripts (Gen_Sx) are parsed, re-serialised and parsed again; formulas are serialised to the human-readable syntax and parsed back. TLC validates: the re-parsed formula is the very same object (a constant-array literal comes back as the equivalent chain of stores, AsStores); the two command lists are identical up to the fresh names of definition parameters; the HR round trip preserves type and meaning (Eval) and changes at most the grouping of n-ary operators.",
   note="non-Boolean terms t are round-tripped inside t = t; scripts with commands pySMT cannot serialise and formulas the HR parser rejects are outside the property",
   tech=TECH + "TLC-generated formulas/scripts round-tripped through the real printers and parsers, results validated by TLC", ref="DESIGN.md 3 C09"),
+ "C17": dict(
+  text="The strict reference solver IS the specification: the SMT-LIB script semantics of SmtLibSyntax.tla (declarations scoped by assertion level; Illegal on redeclaration in scope, use before declaration or after the declaring level was popped, pop below level 0). TLC enumerates API histories (add_assertion of formulas sharing symbols, push/pop 1-2, solve, get_value, get_model, reset_assertions, is_sat/is_valid/is_unsat; all legal histories up to length 3, length 4 sampled, simulated length 10); each is replayed on a real SmtLibSolver (also via Factory.add_generic_solver) talking to a fake solver process that logs every command before replying and never rejects anything; TLC runs the logged command stream through the strict machine and validates: never Illegal, after each call the solver holds exactly the live assertions of the API history (C16 semantics, meaning-level comparison), each verdict is the reply to the check-sat of that call, get_model/get_value return the solver's values for every symbol of the live assertions.",
+  note="commands and API calls are joined by call boundaries (single-threaded library), no wall clock; the fake solver's sat answers are relative to one fixed total model",
+  tech=TECH + "TLC-enumerated API histories replayed on the real wrapper with a logging fake solver; command stream validated by TLC against a strict SMT-LIB solver specification", ref="DESIGN.md 3 C17"),
 }
 NA_REASON = "check under construction in this round (planned with the same TLA+/TLC technique, see DESIGN.md)"
 
